@@ -335,10 +335,18 @@ type selectClause struct {
 	fielded
 }
 
-func (s *selectClause) Get(known core.Fields) (core.Fields, error) {
+func (s *selectClause) Get(known core.Fields) (fields core.Fields, err error) {
+	// The select list is resolved when a query starts to run, not when it is
+	// parsed. A malformed expression (e.g. CONCAT() without arguments) must make
+	// the query fail, not panic in whoever is iterating over it.
+	defer func() {
+		if p := recover(); p != nil {
+			fields = nil
+			err = fmt.Errorf("Unable to resolve fields: %v", p)
+		}
+	}()
 	s.init(known)
 
-	var fields core.Fields
 	for _, _e := range s.stmt.SelectExprs {
 		if nodeToString(_e) == "_" {
 			// Ignore underscore
